@@ -1072,6 +1072,205 @@ fn merkle_stream(cx: &mut Ctx) {
 	}
 }
 
+/// `MerkleProof::verify` on decoded proofs (the stateless check a Merkle proof from hex / from the
+/// wire goes through): genuine proofs of every leaf of MMRs of 1..N leaves after a wire round trip,
+/// with the `mmr_size` field set to every value 0..true+8 (sizes that are no MMR size included) and
+/// to huge values, the claimed position moved, the path shortened / lengthened, and long random
+/// paths. Every call under `catch_unwind`, the allocation counter and the watchdog (this stream runs
+/// in a child of its own: a stack overflow is an abort). Small cases are also `pmmr verify` lines,
+/// recomputed by the PMMR model (the verdict is a spec value there).
+fn merkle_verify_stream(cx: &mut Ctx) {
+	let maxn: u64 = if cx.thorough { 40 } else { 22 };
+	let mut rng = Rng::new(cx.rng.next());
+	let mut ba = VecBackend::<Elem>::new();
+	let mut size = 0u64;
+	let mut elems: Vec<Elem> = vec![];
+	let mut calls = 0u64;
+	let mut outcomes: BTreeMap<String, u64> = BTreeMap::new();
+	let mut worst_ratio = 0usize;
+	let huge: [u64; 7] = [1 << 32, 1 << 62, (1 << 63) - 1, 1 << 63, u64::MAX - 2, u64::MAX - 1, u64::MAX];
+	// one call: verdict or panic; oracle on panic and on memory
+	let mut call = |cx: &mut Ctx, pr: &MerkleProof, root: Hash, el: &Elem, pos: u64, what: &str, line: bool, calls: &mut u64, outcomes: &mut BTreeMap<String, u64>, worst: &mut usize| {
+		*calls += 1;
+		let (p2, e2) = (pr.clone(), el.clone());
+		let (r, maxreq) = measured(move || p2.verify(root, &e2, pos).is_ok());
+		let peak = LAST_PEAK.load(Ordering::Relaxed);
+		let input_len = 16 + 32 * pr.path.len();
+		let verdict = match &r {
+			Ok(v) => v.to_string(),
+			Err(_) => "panic".to_string(),
+		};
+		*outcomes.entry(format!("{} -> {}", what, verdict)).or_insert(0) += 1;
+		if let Err(m) = &r {
+			cx.oracle_fails += 1;
+			cx.out.raw(&format!(
+				"#ORACLE-FAIL C11 merkleproof-verify-panics ({}) {}: proof {} claimed position {} root {} element {}",
+				m.replace('\n', " "), what, hex(&sv(pr, 1)), pos, hex(root.as_bytes()), hex(&el.0)
+			));
+		}
+		// the proof is cloned once per level of the recursion: anything above a small multiple of the
+		// input per level is not explained by that
+		let ratio = peak / input_len.max(1);
+		if ratio > *worst {
+			*worst = ratio;
+		}
+		if maxreq > 2 * input_len + 4096 {
+			cx.oracle_fails += 1;
+			cx.out.raw(&format!(
+				"#ORACLE-FAIL C11 merkleproof-verify-over-allocates: single request of {} bytes for a proof of {} bytes ({}): proof {} claimed position {}",
+				maxreq, input_len, what, hex(&sv(pr, 1)), pos
+			));
+		}
+		if line {
+			cx.out.line(
+				&format!("pmmr verify {} {} {} {} {}", hex(root.as_bytes()), pr.mmr_size, hex_list(&pr.path.iter().map(|h| h.as_bytes().to_vec()).collect::<Vec<_>>()), hex(&el.0), pos),
+				&verdict,
+			);
+		}
+	};
+	for n in 1..=maxn {
+		let e = Elem(rng.bytes(8));
+		let mut pm = PMMR::at(&mut ba, size);
+		if pm.push(&e).is_err() {
+			break;
+		}
+		size = pm.size;
+		let root = match pm.root() {
+			Ok(r) => r,
+			Err(_) => break,
+		};
+		elems.push(e);
+		let other_root = Hash::from_vec(&rng.bytes(32));
+		let mmr = ReadonlyPMMR::<Elem, _>::at(&ba, size);
+		for i in 0..n {
+			let pos = pmmr::insertion_to_pmmr_index(i);
+			let genuine = match mmr.merkle_proof(pos) {
+				Ok(p) => p,
+				Err(_) => continue,
+			};
+			// what arrives: the proof after its wire form
+			let pr = match ser::deserialize::<MerkleProof, _>(&mut &sv(&genuine, 1)[..], ProtocolVersion(1), DeserializationMode::default()) {
+				Ok(p) => p,
+				Err(_) => continue,
+			};
+			let el = &elems[i as usize];
+			// the honest call must accept
+			let ok = catch(std::panic::AssertUnwindSafe(|| pr.verify(root, el, pos).is_ok())).unwrap_or(false);
+			if !ok {
+				cx.oracle_fails += 1;
+				cx.out.raw(&format!("#ORACLE-FAIL C11 merkleproof-verify honest proof refused after the wire round trip: proof {} position {}", hex(&sv(&pr, 1)), pos));
+			}
+			// every claimed size, valid or not, x claimed positions
+			let positions = [pos, 0, pos + 1, size.saturating_sub(1), size, size + 1];
+			for s in 0..=size + 8 {
+				let mut q = pr.clone();
+				q.mmr_size = s;
+				for (k, p2) in positions.iter().enumerate() {
+					let line = (calls + k as u64) % 7 == 0 || s == size;
+					call(cx, &q, root, el, *p2, if s == size { "true size" } else { "claimed size" }, line && k < 3, &mut calls, &mut outcomes, &mut worst_ratio);
+				}
+				call(cx, &q, other_root, el, pos, "other root", false, &mut calls, &mut outcomes, &mut worst_ratio);
+			}
+			// huge sizes and positions (release arithmetic inside pmmr::family / peaks): oracle only
+			if i % 3 == 0 || n < 6 {
+				for s in huge.iter() {
+					let mut q = pr.clone();
+					q.mmr_size = *s;
+					for p2 in [pos, size, 1 << 32, (1 << 63) - 1, 1 << 63, u64::MAX - 1, u64::MAX].iter() {
+						call(cx, &q, root, el, *p2, "huge size/position", false, &mut calls, &mut outcomes, &mut worst_ratio);
+					}
+				}
+				for p2 in huge.iter() {
+					call(cx, &pr, root, el, *p2, "huge position", false, &mut calls, &mut outcomes, &mut worst_ratio);
+				}
+			}
+			// the path shortened / lengthened
+			let mut variants: Vec<MerkleProof> = vec![];
+			if !pr.path.is_empty() {
+				let mut q = pr.clone();
+				q.path.remove(0);
+				variants.push(q);
+				let mut q = pr.clone();
+				q.path.pop();
+				variants.push(q);
+				let mut q = pr.clone();
+				q.path.insert(0, pr.path[0]);
+				variants.push(q);
+			}
+			let mut q = pr.clone();
+			q.path.push(root);
+			variants.push(q);
+			let mut q = pr.clone();
+			for _ in 0..rng.range(1, 70) {
+				q.path.push(Hash::from_vec(&rng.bytes(32)));
+			}
+			variants.push(q);
+			let mut q = pr.clone();
+			q.path.clear();
+			variants.push(q);
+			for (k, q) in variants.iter().enumerate() {
+				for p2 in [pos, 0, size].iter() {
+					call(cx, q, root, el, *p2, "path length", k < 4 && q.path.len() < 12, &mut calls, &mut outcomes, &mut worst_ratio);
+				}
+			}
+		}
+	}
+	// long paths: the recursion is one level per path hash and every level clones what is left
+	let lens: &[usize] = if cx.thorough { &[0, 1, 2, 3, 5, 8, 13, 21, 34, 64, 65, 256, 1024, 2048, 4096] } else { &[0, 1, 2, 3, 5, 8, 13, 21, 34, 64, 65, 256, 1024, 2048] };
+	let el = Elem(rng.bytes(8));
+	for len in lens.iter() {
+		// one peak, twenty peaks, no MMR size at all (no peaks), the largest size
+		for s in [(1u64 << 20) - 1, 2 * ((1u64 << 20) - 1) - 20, (1u64 << 20) + 1, u64::MAX].iter() {
+			let pr = MerkleProof { mmr_size: *s, path: (0..*len).map(|_| Hash::from_vec(&rng.bytes(32))).collect() };
+			let root = Hash::from_vec(&rng.bytes(32));
+			calls += 1;
+			let (p2, e2) = (pr.clone(), el.clone());
+			let (r, maxreq) = measured(move || p2.verify(root, &e2, 0).is_ok());
+			let peak = LAST_PEAK.load(Ordering::Relaxed);
+			let input_len = 16 + 32 * len;
+			cx.out.raw(&format!(
+				"#STAT merkle verify long path: {} hashes ({} bytes), mmr_size {} -> {}; largest request {} bytes, live peak {} bytes = {} x input",
+				len, input_len, s,
+				match &r { Ok(v) => v.to_string(), Err(m) => format!("PANIC {}", m.replace('\n', " ")) },
+				maxreq, peak, peak / input_len
+			));
+			// the instrumented model says exactly how much is alive at the bottom of the recursion
+			cx.out.line(&format!("ser mvlive {} {} {}", len, s, peak), "as-model");
+			if r.is_err() {
+				cx.oracle_fails += 1;
+				cx.out.raw(&format!("#ORACLE-FAIL C11 merkleproof-verify-panics on a random path of {} hashes with mmr_size {}", len, s));
+			}
+			// repaired in /repo b3a89a045 (one clone of the path, not one per level): before that a
+			// path of 2048 hashes (64 KB) held 67 MB
+			if *len >= 256 {
+				regress(
+					cx,
+					"merkleproof-verify-quadratic-memory",
+					peak <= 2 * input_len + 8192,
+					format!("MerkleProof::verify on a path of {} hashes ({} bytes) with mmr_size {} holds {} bytes live", len, input_len, s, peak),
+				);
+			}
+		}
+	}
+	// how deep the recursion can go is not part of the allocation claim; one deliberately deep call on
+	// request (VERIF_MV_DEEP=<hashes>): a stack overflow shows as an abort of this child
+	if let Ok(v) = std::env::var("VERIF_MV_DEEP") {
+		if let Ok(n) = v.parse::<usize>() {
+			let pr = MerkleProof { mmr_size: u64::MAX, path: (0..n).map(|_| Hash::from_vec(&rng.bytes(32))).collect() };
+			let root = Hash::from_vec(&rng.bytes(32));
+			cx.out.raw(&format!("#STAT merkle verify deep: starting a path of {} hashes", n));
+			cx.out.flush();
+			let e2 = el.clone();
+			let (r, _) = measured(move || pr.verify(root, &e2, 0).is_ok());
+			cx.out.raw(&format!("#STAT merkle verify deep: {} hashes -> {:?}, live peak {}", n, r, LAST_PEAK.load(Ordering::Relaxed)));
+		}
+	}
+	for (k, v) in outcomes.iter() {
+		cx.out.raw(&format!("#STAT merkle verify: {}: {}", k, v));
+	}
+	cx.out.raw(&format!("#STAT merkle verify: {} calls, MMRs of 1..={} leaves, claimed sizes 0..=true+8 and huge; largest live peak / input length on these = {}", calls, maxn, worst_ratio));
+}
+
 fn hex_streams(cx: &mut Ctx) {
 	// util::from_hex on arbitrary strings, MerkleProof::from_hex on strings whose decoded path_len is safe
 	let mut strings: Vec<String> = vec![
@@ -2740,6 +2939,9 @@ fn child_main(mode: &str) {
 			unknown_type_oracle(&mut cx);
 			probe_in_process(&mut cx);
 		}
+		"mverify" => {
+			merkle_verify_stream(&mut cx);
+		}
 		_ => {}
 	}
 	let stats = std::mem::take(&mut cx.stats);
@@ -2815,6 +3017,20 @@ fn main() {
 				tail.replace('\n', " | ")
 			);
 		}
+	}
+	// 2. MerkleProof::verify on decoded proofs, in a child of its own (deep recursion: an abort
+	// must not take the main stream with it)
+	let (code, sig, err, last) = run_child("mverify", &mut sink);
+	if code != Some(0) && code != Some(3) {
+		let tail: String = err.chars().rev().take(300).collect::<String>().chars().rev().collect();
+		let _ = writeln!(
+			sink,
+			"#ORACLE-FAIL C11 abort: MerkleProof::verify process died (exit {:?} signal {:?}) after line [{}]; stderr tail: {}",
+			code,
+			sig,
+			last.chars().take(400).collect::<String>(),
+			tail.replace('\n', " | ")
+		);
 	}
 	let _ = sink.flush();
 }
